@@ -120,6 +120,64 @@ impl OpSpec for Expose {
     }
 }
 
+/// catalogue entry: expose the result of lazy arithmetic on two emulated-field elements
+#[derive(Clone)]
+struct ExposeDerived {
+    kind: Kind,
+    op: usize,
+}
+
+impl OpSpec for ExposeDerived {
+    type In = (Val, Val);
+
+    fn name(&self) -> String {
+        format!("{}/constrain-derived[{}]", self.kind.type_name(), val::DERIVED_OPS[self.op])
+    }
+    fn arch(&self) -> ZkStdLibArch {
+        arch_of(std::iter::once(self.kind))
+    }
+    fn synth(&self, std: &ZkStdLib, l: &mut impl Layouter<F>, input: Value<(Val, Val)>) -> Result<(), Error> {
+        val::synth_derived(std, l, self.kind, self.op, &input)
+    }
+    fn reference(&self, v: &(Val, Val)) -> Option<Vec<F>> {
+        if v.0.admissible() && v.1.admissible() && v.0.kind() == self.kind && v.1.kind() == self.kind {
+            val::derived_value(self.op, &v.0, &v.1).map(|z| z.encode_lib())
+        } else {
+            None
+        }
+    }
+    fn n_input_positions(&self, _: &(Val, Val)) -> usize {
+        0
+    }
+    fn extra_targets(&self, _pos: usize, honest: F) -> Vec<F> {
+        vec![F::ONE - honest, -honest, honest.double()]
+    }
+}
+
+fn run_derived(kind: Kind, op: usize, thorough: bool, seed: u64, part: &mut Report, out: &mut JobOut) {
+    let mut rng = rng_for(seed, &format!("derived-{kind:?}-{op}"));
+    let b = val::boundary(kind);
+    let mut inputs: Vec<(Val, Val)> = vec![];
+    // boundary pairs that force carries, borrows and reductions, then random pairs
+    for (i, j) in [(0usize, 0usize), (1, 1), (2, 1), (1, 2), (3, 3), (0, 2)] {
+        if let (Some(x), Some(y)) = (b.get(i % b.len().max(1)), b.get(j % b.len().max(1))) {
+            inputs.push((x.clone(), y.clone()));
+        }
+    }
+    for _ in 0..if thorough { 12 } else { 3 } {
+        inputs.push((val::random(kind, &mut rng), val::random(kind, &mut rng)));
+    }
+    if let Some(last) = b.last() {
+        inputs.push((last.clone(), val::random(kind, &mut rng)));
+    }
+    let e = ExposeDerived { kind, op };
+    let mut opts = OpOptions::new("C08", thorough);
+    opts.ars = None;
+    opts.seed_cells = 0;
+    opts.max_positions = if thorough { 32 } else { 8 };
+    out.op = check_op(&e, &inputs, &opts, seed, part);
+}
+
 // ---------------------------------------------------------------------------------------------
 // relation exposing several values of mixed types in a given order
 // ---------------------------------------------------------------------------------------------
@@ -358,6 +416,35 @@ fn check_real(case: &MixCase, seed: u64, rep: &mut Report, rs: &mut RealStats) {
                 }
             }
         }
+        // the batch verifier insists on the recorded number PER PROOF (no committed instances there)
+        if committed.is_empty() && !plain.is_empty() {
+            let vks = [vk.clone(), vk.clone()];
+            if let Err(e) = midnight_zk_stdlib::batch_verify::<H>(&vp, &vks, &[plain.clone(), plain.clone()], &[proof.clone(), proof.clone()]) {
+                return Err(("rejects-honest".into(), format!("batch_verify rejects a batch of two honest proofs with the off-circuit encoding: {e:?}")));
+            }
+            let short = plain[..plain.len() - 1].to_vec();
+            for (what, long) in [("zero", [plain.clone(), vec![F::ZERO]].concat()), ("arbitrary", [plain.clone(), vec![F::from(0xdead_beefu64)]].concat())] {
+                // compensating lengths: one vector one shorter, one vector one longer
+                for (sv, lv) in [(&short, &long), (&plain, &long)] {
+                    rs.proofs += 2;
+                    let (Ok(ps), Ok(pl)) = (prove(sv, 11), prove(lv, 12)) else { continue };
+                    for order in 0..2 {
+                        let (pis, proofs) = if order == 0 { (vec![sv.clone(), lv.clone()], vec![ps.clone(), pl.clone()]) } else { (vec![lv.clone(), sv.clone()], vec![pl.clone(), ps.clone()]) };
+                                    if midnight_zk_stdlib::batch_verify::<H>(&vp, &vks, &pis, &proofs).is_ok() {
+                            return Err((
+                                "count-mismatch".into(),
+                                format!(
+                                    "batch_verify accepts a batch whose instance vectors have {} and {} raw public inputs (extra value: {what}) where the circuit exposes {}",
+                                    pis[0].len(),
+                                    pis[1].len(),
+                                    plain.len()
+                                ),
+                            ));
+                        }
+                    }
+                }
+            }
+        }
         // edited positions
         for i in driver::pick_positions(1, plain.len(), 3) {
             let mut e = plain.clone();
@@ -407,6 +494,8 @@ enum Job {
     Real { case: MixCase },
     Verifier { idx: usize },
     Zkir { vals: Vec<zkir::ZVal> },
+    /// exposure of the result of lazy arithmetic on emulated-field elements
+    Derived { kind: Kind, op: usize },
 }
 
 impl Job {
@@ -430,6 +519,7 @@ impl Job {
             }
             Job::Verifier { .. } => "verifier-types".into(),
             Job::Zkir { .. } => "zkir/publish".into(),
+            Job::Derived { kind, op } => format!("{}/constrain-derived[{}]", kind.type_name(), val::DERIVED_OPS[*op]),
         }
     }
     fn weight(&self) -> usize {
@@ -447,6 +537,7 @@ impl Job {
             Job::Real { case } => 30 + 10 * case.witness.iter().map(|(v, _)| kw(&v.kind())).sum::<usize>(),
             Job::Verifier { .. } => 200,
             Job::Zkir { vals } => 2 * vals.len(),
+            Job::Derived { kind, .. } => kw(kind) * 10,
         }
     }
 }
@@ -545,7 +636,29 @@ fn verifier_cases(idx: usize, seed: u64) -> (String, verif::Shape, Accumulator<v
     let mut rng = rng_for(seed, &format!("verifier-{idx}"));
     let g = G1Projective::generator();
     let names = |p: &str, n: usize| (0..n).map(|i| format!("{p}_{i}")).collect::<Vec<_>>();
-    let (label, shape, pts, scs, fl, fr): (&str, Shape, Vec<C>, Vec<F>, Vec<F>, Vec<F>) = match idx % 5 {
+    let (label, shape, pts, scs, fl, fr): (&str, Shape, Vec<C>, Vec<F>, Vec<F>, Vec<F>) = match idx % 7 {
+        // the library's own name list of a verifying key with 11 fixed and 12 permutation
+        // commitments: numeric order, which is NOT the lexicographic order of the off-circuit map
+        5 => {
+            let rhs_names = midnight_circuits::verifier::fixed_base_names::<S>("vk", 11, 12);
+            let n = rhs_names.len();
+            let sh = Shape { lhs_len: 1, rhs_len: 1, lhs_names: vec![], rhs_names };
+            let pts = (0..2).map(|_| g * rand_f(&mut rng)).collect();
+            let scs = (0..2).map(|_| rand_f(&mut rng)).collect();
+            ("library name list 11+12 (numeric order)", sh, pts, scs, vec![], (0..n).map(|_| rand_f(&mut rng)).collect())
+        }
+        // caller-chosen names in arbitrary order on both sides
+        6 => {
+            let sh = Shape {
+                lhs_len: 1,
+                rhs_len: 1,
+                lhs_names: vec!["z".into(), "a".into(), "m".into()],
+                rhs_names: vec!["k_2".into(), "k_10".into(), "-G".into(), "k_1".into()],
+            };
+            let pts = (0..2).map(|_| g * rand_f(&mut rng)).collect();
+            let scs = (0..2).map(|_| rand_f(&mut rng)).collect();
+            ("unsorted caller names", sh, pts, scs, (0..3).map(|_| rand_f(&mut rng)).collect(), (0..4).map(|_| rand_f(&mut rng)).collect())
+        }
         // trivial accumulator of the IVC example: default (identity) bases, scalar one, zero fixed scalars
         0 => {
             let sh = Shape { lhs_len: 1, rhs_len: 1, lhs_names: vec![], rhs_names: names("vk_fixed_com", 3) };
@@ -1046,10 +1159,18 @@ fn main() {
             }
         }
         // E: verifier types
-        for i in 0..ctx.tier.pick(5, 20) {
+        for i in 0..ctx.tier.pick(7, 21) {
             jobs.push(Job::Verifier { idx: i });
         }
         jobs.push(Job::Verifier { idx: usize::MAX }); // AssignedVk
+        // E': derived (un-normalised) emulated-field elements
+        for (ki, kind) in [Kind::SecpBase, Kind::SecpScalar, Kind::BlsBase].into_iter().enumerate() {
+            for op in 0..val::DERIVED_OPS.len() {
+                if thorough || (op + ki) % 2 == 0 || op == 1 {
+                    jobs.push(Job::Derived { kind, op });
+                }
+            }
+        }
         // F: ZKIR Publish (light; C18 covers Publish in depth)
         {
             use zkir::ZVal;
@@ -1272,6 +1393,7 @@ fn run_job(idx: usize, job: &Job, thorough: bool, seed: u64, proto: &Report) -> 
             }
         }
         Job::Zkir { vals } => zkir::check_publish(vals, part, &mut out.exp),
+        Job::Derived { kind, op } => run_derived(*kind, *op, thorough, seed, part, out),
     };
     let mut out = JobOut { idx, key: job.key(), ..Default::default() };
     let mut part = proto.fork();
